@@ -1,5 +1,6 @@
 import SpecVerif.Proofs.Lemmas.LinPred
 import SpecVerif.Proofs.Lemmas.LpcLsf
+import SpecVerif.Proofs.Lemmas.LsfCircle
 import Mathlib.Algebra.Star.Rat
 import Mathlib.Algebra.BigOperators.Group.List.Basic
 /-
@@ -22,10 +23,31 @@ import Mathlib.Algebra.BigOperators.Group.List.Basic
   (`lsf_roundtrip_algebra`); that the deflated polynomials exist, i.e. `deconvolve` leaves zero
   remainder, is proved by synthetic division (`lsf_deflation_exists`).  The round trip is therefore
   relative only to the contract of `numpy.roots` / `numpy.poly` (a monic polynomial is the product of
-  its linear factors); the numerical root finding, `angle`, and the ordering / interlacing of the
-  line spectral frequencies are NOT modelled and not proved.  Polynomials are coefficient lists,
-  highest power first, *with* the leading 1 in that section
-  (`LpcL.polyEval p z = Σ_i p_i z^{len p - 1 - i}`), over any field `F` (no involution needed).
+  its linear factors).  Polynomials are coefficient lists, highest power first, *with* the leading 1 in
+  that section (`LpcL.polyEval p z = Σ_i p_i z^{len p - 1 - i}`), over any field `F` (no involution
+  needed).
+
+  The analytic clause "`poly2lsf` returns line spectral frequencies that are real angles in `(0, π)`,
+  strictly increasing, for a minimum-phase prediction polynomial" is PROVED in the section after it
+  (helper lemmas in `Proofs/Lemmas/LsfCircle.lean`, namespace `SpecVerif.LsfCircleL`), over `ℝ`/`ℂ`
+  (`RCLike`), for a polynomial `[1, c_1..c_p]` with real (self-conjugate) coefficients all of whose
+  reflection coefficients `poly2rc c` have modulus `< 1`:
+  * `lsfSplit_eval`: `P1(z) = z·A(z) − R(z)`, `Q1(z) = z·A(z) + R(z)`, `R` the reversed polynomial;
+  * `schur_cohn_strict`: `|B| < |A|` outside, `|A| < |B|` inside the unit circle (step-up recursion,
+    `|A'|² − |B'|² = (1−|k|²)(|z|²|A|² − |B|²)`);
+  * `lsf_roots_on_unit_circle` (`_rc`): every zero of `P1` and of `Q1` has modulus 1 (`|zA| > |B|`
+    outside, `|zA| < |B|` inside, `z = 0` included);
+  * `lsf_no_common_root`, `lsf_roots_conj_closed`;
+  * `lsf_roots_simple`: no zero is double (Christoffel–Darboux kernel of the recursion:
+    `B(z)conj B(w) − z conj(w) A(z)conj A(w) = (1 − z conj w)·S(z,w)` with `S(w,w) ≥ |A(w)|² > 0`);
+  * `lsf_computed_roots_unit_distinct`, `lsf_angles`: relative to the contract of `numpy.roots` (the root
+    lists multiply back to the deflated polynomials) the `2p` computed roots are unimodular, not `±1`,
+    pairwise distinct, closed under conjugation; over `ℂ` each is `e^{iθ}` with `θ = angle(r)`, exactly `p`
+    angles are positive, they lie in `(0, π)`, and sorted they are strictly increasing.
+  NOT proved (not part of the clause): the *interlacing* of the zeros of `P1` and `Q1` (needs the
+  monotonicity of the phase of the all-pass function `B/(zA)`); NOT modelled: the numerical root finder
+  itself and `poly2lsf`'s selection of one root per conjugate pair by position (`rP[1::2]`), which relies
+  on the ordering of `numpy.roots`' output.
 -/
 namespace SpecVerif.C11
 open SpecVerif
@@ -449,5 +471,221 @@ example : lsfSplit ([1, 0, 1 / 4] : List ℚ) = ([1, -1 / 4, 1 / 4, -1], [1, 1 /
   decide +kernel
 
 end Lsf
+
+/-! ### the zeros of the line spectral polynomials lie on the unit circle, are simple and distinct
+
+`E` is `ℝ` or `ℂ` (`RCLike`); "real polynomial" means self-conjugate coefficients (`star c_j = c_j`), so
+that over `E = ℂ` the statements are about the complex zeros of a real prediction polynomial
+`a = [1, c_1..c_p]`, which is what `poly2lsf` hands to `numpy.roots`.  "Minimum phase" is stated through
+the reflection coefficients: `‖k‖ < 1` for every `k ∈ poly2rc c` (equivalently, `c = rc2poly kr` with all
+`‖k_i‖ < 1`, `rc2poly_poly2rc` / `poly2rc_rc2poly`).  `polyA c z = z^p + Σ c_j z^{p-1-j}`,
+`polyB c z = 1 + Σ conj(c_j) z^{j+1}`, `polyR c z = 1 + Σ c_j z^{j+1}` are the prediction polynomial,
+its reciprocal and its reverse (`Lemmas/SchurCohn.lean`). -/
+
+section LsfCircle
+open SpecVerif.LpcL SpecVerif.SchurL SpecVerif.LsfCircleL
+variable {E : Type} [RCLike E]
+
+/-- **strict Schur–Cohn**: with at least one stage and all `|k_i| < 1`, the step-up polynomial strictly
+dominates its reciprocal outside the unit circle, and is strictly dominated inside -/
+theorem schur_cohn_strict (kr : List E) (r0 : E) (hne : kr ≠ []) (hk : ∀ k ∈ kr, ‖k‖ < 1) (z : E) :
+    (1 < ‖z‖ → ‖polyB (rc2poly kr r0).1 z‖ < ‖polyA (rc2poly kr r0).1 z‖)
+    ∧ (‖z‖ < 1 → ‖polyA (rc2poly kr r0).1 z‖ < ‖polyB (rc2poly kr r0).1 z‖) :=
+  ⟨schur_strict_outside kr r0 hne hk z, schur_strict_inside kr r0 hne hk z⟩
+
+/-- non-vacuity: two real reflection coefficients of modulus `< 1` -/
+example : ([(1 / 2 : ℝ), -1 / 3] ≠ []) ∧ ∀ k ∈ [(1 / 2 : ℝ), -1 / 3], ‖k‖ < 1 := by
+  refine ⟨by simp, ?_⟩
+  intro k hk
+  simp only [List.mem_cons, List.not_mem_nil, or_false] at hk
+  rcases hk with rfl | rfl <;> rw [Real.norm_eq_abs, abs_lt] <;> constructor <;> norm_num
+
+/-- **the line spectral polynomials in closed form**: for `a = 1 :: c`,
+`P1(z) = z·A(z) − R(z)` and `Q1(z) = z·A(z) + R(z)` with `R(z) = z^p A(1/z)` the reversed polynomial
+(any field) -/
+theorem lsfSplit_eval {F : Type} [Field F] (c : List F) (z : F) :
+    polyEval (lsfSplit ((1 : F) :: c)).1 z = z * polyA c z - polyR c z
+    ∧ polyEval (lsfSplit ((1 : F) :: c)).2 z = z * polyA c z + polyR c z :=
+  polyEval_lsfSplit_cons c z
+
+/-- **every zero of `P1` and of `Q1` lies on the unit circle** when the real prediction polynomial
+`[1, c_1..c_p]` is minimum phase; `z = 0` is never a zero -/
+theorem lsf_roots_on_unit_circle (c : List E) (hreal : ∀ j, star (nth c j) = nth c j)
+    (hk : ∀ k ∈ poly2rc c, ‖k‖ < 1) (z : E) :
+    (polyEval (lsfSplit ((1 : E) :: c)).1 z = 0 → ‖z‖ = 1)
+    ∧ (polyEval (lsfSplit ((1 : E) :: c)).2 z = 0 → ‖z‖ = 1) := by
+  obtain ⟨kr, hr, hk', _, rfl⟩ := minphase_eq_rc2poly c hreal hk
+  constructor
+  · intro h0
+    by_contra hne
+    exact (lsfSplit_eval_ne_zero kr 1 hr hk' z hne).1 h0
+  · intro h0
+    by_contra hne
+    exact (lsfSplit_eval_ne_zero kr 1 hr hk' z hne).2 h0
+
+/-- the same for a polynomial given by its reflection coefficients -/
+theorem lsf_roots_on_unit_circle_rc (kr : List E) (r0 : E) (hreal : ∀ k ∈ kr, star k = k)
+    (hk : ∀ k ∈ kr, ‖k‖ < 1) (z : E) :
+    (polyEval (lsfSplit ((1 : E) :: (rc2poly kr r0).1)).1 z = 0 → ‖z‖ = 1)
+    ∧ (polyEval (lsfSplit ((1 : E) :: (rc2poly kr r0).1)).2 z = 0 → ‖z‖ = 1) := by
+  constructor
+  · intro h0
+    by_contra hne
+    exact (lsfSplit_eval_ne_zero kr r0 hreal hk z hne).1 h0
+  · intro h0
+    by_contra hne
+    exact (lsfSplit_eval_ne_zero kr r0 hreal hk z hne).2 h0
+
+/-- non-vacuity of the hypotheses: `c = [1/3, -1/3]` over `ℂ` is real with reflection coefficients
+`[1/2, -1/3]` -/
+example : (∀ j, star (nth ([1 / 3, -1 / 3] : List ℂ) j) = nth ([1 / 3, -1 / 3] : List ℂ) j)
+    ∧ poly2rc ([1 / 3, -1 / 3] : List ℂ) = [1 / 2, -1 / 3]
+    ∧ ∀ k ∈ ([1 / 2, -1 / 3] : List ℂ), ‖k‖ < 1 := by
+  refine ⟨?_, ?_, ?_⟩
+  · intro j
+    rcases j with _ | _ | j <;> simp [nth]
+  · norm_num [poly2rc, levdown, stepDowns, vec, nth, abs2, conj, List.range, List.range.loop]
+  · intro k hk
+    simp only [List.mem_cons, List.not_mem_nil, or_false] at hk
+    rcases hk with rfl | rfl <;> norm_num
+
+/-- **`P1` and `Q1` have no common zero** -/
+theorem lsf_no_common_root (c : List E) (hreal : ∀ j, star (nth c j) = nth c j)
+    (hk : ∀ k ∈ poly2rc c, ‖k‖ < 1) (z : E) :
+    ¬ (polyEval (lsfSplit ((1 : E) :: c)).1 z = 0 ∧ polyEval (lsfSplit ((1 : E) :: c)).2 z = 0) := by
+  obtain ⟨kr, hr, hk', _, rfl⟩ := minphase_eq_rc2poly c hreal hk
+  exact fun h => lsfSplit_no_common_zero kr 1 hr hk' z h.1 h.2
+
+/-- the zeros of `P1` and of `Q1` come in conjugate pairs (real coefficients) -/
+theorem lsf_roots_conj_closed (c : List E) (hreal : ∀ j, star (nth c j) = nth c j) (z : E) :
+    (polyEval (lsfSplit ((1 : E) :: c)).1 z = 0 → polyEval (lsfSplit ((1 : E) :: c)).1 (star z) = 0)
+    ∧ (polyEval (lsfSplit ((1 : E) :: c)).2 z = 0
+        → polyEval (lsfSplit ((1 : E) :: c)).2 (star z) = 0) := by
+  have ha := cons_one_star_fixed c hreal
+  constructor
+  · intro h
+    rw [polyEval_star _ (fun j => (lsfSplit_star_fixed _ ha j).1), h, star_zero]
+  · intro h
+    rw [polyEval_star _ (fun j => (lsfSplit_star_fixed _ ha j).2), h, star_zero]
+
+/-- **the zeros of `P1` and of `Q1` are simple**: neither polynomial can be written as
+`(z − z0)²·H(z)` with a continuous (in particular: polynomial) cofactor `H`.  (Christoffel–Darboux
+kernel of the step-up recursion, `LsfCircleL.cd_kernel`.) -/
+theorem lsf_roots_simple (c : List E) (hreal : ∀ j, star (nth c j) = nth c j)
+    (hk : ∀ k ∈ poly2rc c, ‖k‖ < 1) (z0 : E) (H : E → E) (hH : Continuous H) :
+    (¬ ∀ z, polyEval (lsfSplit ((1 : E) :: c)).1 z = (z - z0) ^ 2 * H z)
+    ∧ (¬ ∀ z, polyEval (lsfSplit ((1 : E) :: c)).2 z = (z - z0) ^ 2 * H z) := by
+  obtain ⟨kr, hr, hk', _, rfl⟩ := minphase_eq_rc2poly c hreal hk
+  exact lsfSplit_no_double_zero kr 1 hr hk' z0 H hH
+
+/-- **the roots computed by `poly2lsf`**, relative to the contract of `numpy.roots` (the root lists
+multiply back to the deflated polynomials, as in `lsf_roundtrip_algebra`): every one of the `2p` roots
+has modulus 1, none is `±1` (so none is real), they are pairwise distinct — within `rP`, within `rQ`
+and between the two — and each list is closed under conjugation -/
+theorem lsf_computed_roots_unit_distinct (c : List E) (hreal : ∀ j, star (nth c j) = nth c j)
+    (hk : ∀ k ∈ poly2rc c, ‖k‖ < 1) (p : ℕ) (hp : c.length = p) (P Q rP rQ : List E)
+    (hP : polyMul P (if p % 2 = 1 then [1, 0, -1] else [1, -1]) = (lsfSplit ((1 : E) :: c)).1)
+    (hQ : polyMul Q (if p % 2 = 1 then [1] else [1, 1]) = (lsfSplit ((1 : E) :: c)).2)
+    (hrP : polyFromRoots rP = P) (hrQ : polyFromRoots rQ = Q) :
+    (∀ r ∈ rP ++ rQ, ‖r‖ = 1 ∧ r ≠ 1 ∧ r ≠ -1) ∧ (rP ++ rQ).Nodup
+      ∧ (∀ r ∈ rP, star r ∈ rP) ∧ (∀ r ∈ rQ, star r ∈ rQ)
+      ∧ rP.length + rQ.length = 2 * p := by
+  have hlen := (lsf_roundtrip_algebra (two_ne_zero : (2 : E) ≠ 0) ((1 : E) :: c) p
+    (by rw [List.length_cons, hp]) P Q rP rQ hP hQ hrP hrQ).2
+  obtain ⟨kr, hr, hk', hkl, rfl⟩ := minphase_eq_rc2poly c hreal hk
+  obtain ⟨h1, h2, h3, h4⟩ :=
+    lsf_computed_roots kr 1 hr hk' p (hkl.trans hp) P Q rP rQ hP hQ hrP hrQ
+  exact ⟨h1, h2, h3, h4, hlen⟩
+
+/-- non-vacuity of the hypotheses and of the root contract (order 2): `a = [1, -3/5, 2/5]` over `ℂ`
+is real with reflection coefficients `[-3/7, 2/5]`; `P1 = [1, -1, 1, -1] = (z² + 1)(z − 1)` with computed
+roots `±i`, `Q1 = [1, -1/5, -1/5, 1] = (z² − (6/5) z + 1)(z + 1)` with computed roots `(3 ± 4i)/5` —
+unimodular, distinct, conjugate, angles `π/2` and `arctan(4/3)` -/
+example : (∀ j, star (nth ([-3 / 5, 2 / 5] : List ℂ) j) = nth ([-3 / 5, 2 / 5] : List ℂ) j)
+    ∧ poly2rc ([-3 / 5, 2 / 5] : List ℂ) = [-3 / 7, 2 / 5]
+    ∧ (∀ k ∈ ([-3 / 7, 2 / 5] : List ℂ), ‖k‖ < 1)
+    ∧ polyMul (polyFromRoots ([Complex.I, -Complex.I] : List ℂ)) [1, -1]
+        = (lsfSplit ([1, -3 / 5, 2 / 5] : List ℂ)).1
+    ∧ polyMul (polyFromRoots ([(3 + 4 * Complex.I) / 5, (3 - 4 * Complex.I) / 5] : List ℂ)) [1, 1]
+        = (lsfSplit ([1, -3 / 5, 2 / 5] : List ℂ)).2 := by
+  have h1 : polyFromRoots ([Complex.I, -Complex.I] : List ℂ) = [1, 0, 1] := by
+    simp [polyFromRoots, polyMul, vec, nth, sumR, List.range, List.range.loop,
+      Finset.sum_range_succ]
+  have h2 : polyFromRoots ([(3 + 4 * Complex.I) / 5, (3 - 4 * Complex.I) / 5] : List ℂ)
+      = [1, -6 / 5, 1] := by
+    simp [polyFromRoots, polyMul, vec, nth, sumR, List.range, List.range.loop,
+      Finset.sum_range_succ]
+    constructor
+    · ring
+    · ring_nf; simp; norm_num
+  refine ⟨?_, ?_, ?_, ?_, ?_⟩
+  · intro j
+    rcases j with _ | _ | j <;> simp [nth]
+  · norm_num [poly2rc, levdown, stepDowns, vec, nth, abs2, conj, List.range, List.range.loop]
+  · intro k hk
+    simp only [List.mem_cons, List.not_mem_nil, or_false] at hk
+    rcases hk with rfl | rfl <;> norm_num
+  · rw [h1]
+    simp [lsfSplit, polyMul, vec, nth, sumR, List.range, List.range.loop, Finset.sum_range_succ]
+    norm_num
+  · rw [h2]
+    simp [lsfSplit, polyMul, vec, nth, sumR, List.range, List.range.loop, Finset.sum_range_succ]
+    norm_num
+
+/-- **the line spectral frequencies are `p` distinct real angles in `(0, π)`** (`E = ℂ`): under the
+root contract every computed root is `e^{iθ}` with `θ = numpy.angle(r) ∈ (−π, π) \ {0}`, its conjugate
+(angle `−θ`) is also computed, distinct roots have distinct angles, exactly `p` of the `2p` angles are
+positive, and any list `lsf` that is a sorted rearrangement of the positive angles has length `p`, is
+**strictly increasing** and lies in `(0, π)`.  (`poly2lsf` picks one root of each conjugate pair by
+position, `rP[1::2]`, and negates the angle — that relies on the ordering of `numpy.roots`' output,
+which is not modelled; the statement is about the positive representatives.) -/
+theorem lsf_angles (c : List ℂ) (hreal : ∀ j, star (nth c j) = nth c j)
+    (hk : ∀ k ∈ poly2rc c, ‖k‖ < 1) (p : ℕ) (hp : c.length = p) (P Q rP rQ : List ℂ)
+    (hP : polyMul P (if p % 2 = 1 then [1, 0, -1] else [1, -1]) = (lsfSplit ((1 : ℂ) :: c)).1)
+    (hQ : polyMul Q (if p % 2 = 1 then [1] else [1, 1]) = (lsfSplit ((1 : ℂ) :: c)).2)
+    (hrP : polyFromRoots rP = P) (hrQ : polyFromRoots rQ = Q) :
+    (∀ r ∈ rP ++ rQ, Complex.exp (r.arg * Complex.I) = r ∧ -Real.pi < r.arg ∧ r.arg < Real.pi
+        ∧ r.arg ≠ 0 ∧ (star r).arg = -r.arg ∧ star r ∈ rP ++ rQ)
+    ∧ ((rP ++ rQ).map Complex.arg).Nodup
+    ∧ ∀ lsf : List ℝ,
+        lsf.Perm (((rP ++ rQ).map Complex.arg).filter (fun θ => decide (0 < θ))) →
+        lsf.Pairwise (· ≤ ·) →
+        lsf.length = p ∧ lsf.Pairwise (· < ·) ∧ ∀ θ ∈ lsf, 0 < θ ∧ θ < Real.pi := by
+  obtain ⟨h1, h2, h3, h4, h5⟩ :=
+    lsf_computed_roots_unit_distinct c hreal hk p hp P Q rP rQ hP hQ hrP hrQ
+  have hang : ∀ r ∈ rP ++ rQ, Complex.exp (r.arg * Complex.I) = r ∧ -Real.pi < r.arg
+      ∧ r.arg < Real.pi ∧ r.arg ≠ 0 ∧ (star r).arg = -r.arg :=
+    fun r hr => unit_arg r (h1 r hr).1 (h1 r hr).2.1 (h1 r hr).2.2
+  have hconj : ∀ r ∈ rP ++ rQ, star r ∈ rP ++ rQ := by
+    intro r hr
+    rcases List.mem_append.mp hr with h | h
+    · exact List.mem_append.mpr (Or.inl (h3 r h))
+    · exact List.mem_append.mpr (Or.inr (h4 r h))
+  have hnd : ((rP ++ rQ).map Complex.arg).Nodup := by
+    refine List.Nodup.map_on ?_ h2
+    intro x hx y hy hxy
+    exact Complex.ext_norm_arg ((h1 x hx).1.trans (h1 y hy).1.symm) hxy
+  have hcount := pos_angle_count (rP ++ rQ) h2 hconj
+    (fun r hr => ⟨(hang r hr).2.2.2.1, (hang r hr).2.2.2.2⟩)
+  refine ⟨fun r hr => ⟨(hang r hr).1, (hang r hr).2.1, (hang r hr).2.2.1, (hang r hr).2.2.2.1,
+    (hang r hr).2.2.2.2, hconj r hr⟩, hnd, ?_⟩
+  intro lsf hperm hsorted
+  have hfl : (((rP ++ rQ).map Complex.arg).filter (fun θ => decide (0 < θ))).length = p := by
+    rw [List.filter_map, List.length_map]
+    have : (rP ++ rQ).length = 2 * p := by rw [List.length_append, h5]
+    have hc : (List.filter ((fun θ => decide (0 < θ)) ∘ Complex.arg) (rP ++ rQ))
+        = List.filter (fun r : ℂ => decide (0 < r.arg)) (rP ++ rQ) := rfl
+    rw [hc]
+    omega
+  refine ⟨by rw [hperm.length_eq, hfl], ?_, ?_⟩
+  · have hnd' : lsf.Nodup := hperm.nodup_iff.mpr (hnd.filter _)
+    exact (hsorted.and hnd').imp (fun h => lt_of_le_of_ne h.1 h.2)
+  · intro θ hθ
+    have hmem := (hperm.mem_iff).mp hθ
+    rw [List.mem_filter, List.mem_map] at hmem
+    obtain ⟨⟨r, hr, rfl⟩, hpos⟩ := hmem
+    exact ⟨of_decide_eq_true hpos, (hang r hr).2.2.1⟩
+
+end LsfCircle
 
 end SpecVerif.C11
